@@ -229,8 +229,11 @@ def build_optimized_pattern(choices: list[ChoiceChoice], repeat: str = "") -> st
             case UnicodePropertyRule(expression=RegexExpression(pattern=pattern)):
                 unicode_props.append(pattern)
             case ChoiceLiteral(value=val, case=ChoiceCase.INSENSITIVE) if len(val) == 1:
-                char_class_parts.append(val.upper())
-                char_class_parts.append(val.lower())
+                # The character itself and its one character case variants
+                # ("ß".upper() is "SS", "ǅ" is neither upper nor lower case).
+                char_class_parts.extend(
+                    ch for ch in (val, val.upper(), val.lower()) if len(ch) == 1
+                )
             case ChoiceLiteral(value=val, case=ChoiceCase.INSENSITIVE):
                 insensitive_parts.append(f"(?i:{re.escape(val)})")
             case ChoiceLiteral(value=val, case=ChoiceCase.SENSITIVE) if len(val) == 1:
@@ -276,7 +279,8 @@ def is_order_preserving(choices: list[ChoiceChoice]) -> bool:
     def accepts(choice: ChoiceChoice, ch: str) -> bool:
         if isinstance(choice, ChoiceLiteral):
             if choice.case == ChoiceCase.INSENSITIVE:
-                return ch in (choice.value.upper(), choice.value.lower())
+                val = choice.value
+                return ch in (val, val.upper(), val.lower())
             return ch == choice.value
         if isinstance(choice, ChoiceRange):
             lo, hi = sorted((ord(choice.start), ord(choice.end)))
